@@ -102,7 +102,11 @@ def step (st : St) (ws : List String) : St × String :=
     if (Model.Pos.build ((parsePairs ps).foldl (fun b p => Model.Pos.set b p.1 p.2) [])).isNone then
       ({ st with genesis := [] }, "panic validators weight overflow")
     else ({ st with genesis := parsePairs ps }, "ok")
-  | "seal" :: e :: f :: ps => ({ st with seals := ((nat! e, nat! f), parsePairs ps) :: st.seals }, "ok")
+  | "seal" :: e :: f :: ps =>
+    -- the application builds the next epoch's set with pos.ValidatorsBuilder: Build panics above 2^31-1
+    if (Model.Pos.build ((parsePairs ps).foldl (fun b p => Model.Pos.set b p.1 p.2) [])).isNone then
+      (st, "panic validators weight overflow")
+    else ({ st with seals := ((nat! e, nat! f), parsePairs ps) :: st.seals }, "ok")
   | ["inst", k, _] =>
     let i := Inst.fresh 1 st.genesis
     (setV (setO (setInst st (nat! k) i) (nat! k) (Model.Orderer.initial 1 (mkVals st.genesis))) (nat! k)
